@@ -78,7 +78,12 @@ theorem tie_read_assignments :
     Gen.Teehistorian.readAssigns.filter (·.1 == "prev_player_cid") =
       [("prev_player_cid", "None"), ("prev_player_cid", "None"), ("prev_player_cid", "Some(i.cid)"),
        ("prev_player_cid", "Some(i.cid)"), ("prev_player_cid", "Some(i.cid)")] ∧
-    Gen.Teehistorian.lits_read = [1, 1] ∧ Gen.Teehistorian.lits_empty = [0, 1] := by decide
+    Gen.Teehistorian.lits_read = [1, 1] ∧ Gen.Teehistorian.lits_empty = [0, 1] ∧
+    Gen.Teehistorian.lits_read_more = [0, 0, 0] ∧
+    Gen.Teehistorian.readAssigns.filter (·.1 == "tick") =
+      [("tick", "old_tick.checked_add(1).ok_or(format::Error::TickOverflow)?"),
+       ("tick", "self .tick .checked_add(1) .ok_or(format::Error::TickOverflow)? .checked_add(dt) .ok_or(format::Error::TickOverflow)?")] := by
+  decide
 
 /-! ### Prefix monotonicity of every item parser -/
 
@@ -174,6 +179,10 @@ theorem reader_total_partial (cfg : Cfg) (hdr s : List UInt8) (ds : List Nat)
   · exact Or.inr h
   · rw [run_eq_runWhole] at h
     exact absurd h (interp_no_oom cfg _ _ _ hc)
+
+-- non-vacuity: the hypothesis is decidable and holds for an ordinary stream
+example : CidsBelow 1000 (parseAll true 15 [0x42, 2, 0, 0, 0x42, 3, 0, 0, 0x41, 0, 2, 1, 1, 0x40]).1 := by
+  decide +kernel
 
 /-- Finding D18 in the model: one `PLAYER_NEW` record with client id = number of allocatable
 slots ends in resource exhaustion, so `C17_full` does not hold. -/
